@@ -13,11 +13,16 @@ integer order is the string order), e-value = ev * 2**-60, bitscore = sc / 10.
 from __future__ import annotations
 
 import itertools
+import json
 import math
+import os
 import random
+import subprocess
+import sys
+import tempfile
 from typing import Any, Dict, Iterator, List, Optional, Tuple
 
-from ..framework import Judgement, Property, err_kind
+from ..framework import Failure, Judgement, Property, VERIF, err_kind
 
 # sorted by code point; indices 2 and 4 contain "regulator"
 NAMES = ["Aaa", "Bbb", "Cc_regulator", "Ddd", "Ee_regulatory", "Fff"]
@@ -248,6 +253,8 @@ class C13(Property):
             yield self.rand_dock(rng)
         for _ in range(1200 * mult):
             yield self.rand_cp(rng)
+        for _ in range(800 * mult):
+            yield self.rand_refinerec(rng)
         for _ in range(1000 * mult):
             yield self.rand_runhmmer(rng)
         for _ in range(800 * mult):
@@ -366,11 +373,45 @@ class C13(Property):
                     sc = cut[f[1]] + rng.choice([-1, 0, 1])     # around the signature's cut-off
                 raw.append([g, uid, f[1], f[2], f[3], sc])
                 uid += 1
-        rng.shuffle(raw)
         eq = []
         for _ in range(rng.choice([0, 1, 1, 2])):
             eq.append(sorted(rng.sample(range(len(NAMES)), rng.choice([2, 3, 4]))))
+        if rng.random() < 0.35:
+            # a multi-domain gene: profile P twice, its better copy overlapped by a still better hit of an
+            # equivalent profile Q, its weaker copy elsewhere (uncontested, or contested by a weaker hit)
+            p, q = rng.sample(range(len(NAMES)), 2)
+            if not eq:
+                eq.append(sorted({p, q}))
+            elif rng.random() < 0.8:
+                eq[0] = sorted(set(eq[0]) | {p, q})
+            g = rng.randrange(ngenes)
+            base = rng.choice([0, 300, 600])
+            top = max(cut[p], cut[q]) + rng.choice([50, 100])
+            raw.append([g, uid, p, base, base + 100, top + 20]); uid += 1
+            raw.append([g, uid, q, base + rng.choice([10, 50, 79, 80]), base + 160, top + rng.choice([10, 20, 30])]); uid += 1
+            far = base + rng.choice([200, 400])
+            raw.append([g, uid, p, far, far + 100, top + rng.choice([0, 10, 20])]); uid += 1
+            if rng.random() < 0.4:
+                raw.append([g, uid, rng.choice([q, rng.randrange(len(NAMES))]), far + 30, far + 130,
+                            top + rng.choice([-10, 0, 5, 40])]); uid += 1
+        rng.shuffle(raw)
         return {"kind": "cp", "cut": cut, "eq": eq, "raw": raw, "ngenes": ngenes, "pseed": rng.randrange(1 << 30)}
+
+    def rand_refinerec(self, rng: random.Random) -> Dict[str, Any]:
+        """a whole hmmscan output: HSPs [gene, hit] of several genes, interleaved"""
+        lens = self.rand_lens(rng)
+        ngenes = rng.choice([1, 2, 3, 4])
+        raw = []
+        for g in range(ngenes):
+            if rng.random() < 0.15:
+                continue                                   # a gene without any hit
+            hits = self.rand_hits(rng, lens, nmax=5) if rng.random() < 0.7 else self.rand_tie_rich(rng)["hits"]
+            if rng.random() < 0.2:                         # only fragments that the incomplete rule removes
+                hits = [[h[0], h[1], h[1] + 1, h[3], h[4]] for h in hits[:2]]
+            raw.extend([g, h] for h in hits)
+        rng.shuffle(raw)
+        return {"kind": "refinerec", "lens": lens, "nb": rng.random() < 0.5, "raw": raw, "ngenes": ngenes,
+                "pseed": rng.randrange(1 << 30)}
 
     def rand_runhmmer(self, rng: random.Random) -> Dict[str, Any]:
         """raw hmmscan HSPs: [gene, ident, start, end, sc (quarters), ev] + the score / e-value cuts"""
@@ -389,7 +430,7 @@ class C13(Property):
                 raw.append([g, h[0], h[1], h[2], sc, [1, 2, 3, 5][(h[0] + h[1] + 3 * h[2] + sc) % 4]])
         rng.shuffle(raw)
         return {"kind": "runhmmer", "cut": cut, "min": min_score, "maxev": max_ev, "raw": raw,
-                "pseed": rng.randrange(1 << 30)}
+                "filter": rng.random() < 0.8, "pseed": rng.randrange(1 << 30)}
 
     def rand_domains(self, rng: random.Random) -> Dict[str, Any]:
         lens = [rng.choice(self.LENS) for _ in DOCK_NAMES]
@@ -434,6 +475,85 @@ class C13(Property):
             genes.append(raw)
         return {"kind": "subtypes", "lens": lens, "target": target, "callback": rng.random() < 0.6,
                 "existing": existing, "genes": genes, "pseed": rng.randrange(1 << 30)}
+
+    # hash-seed matrix ---------------------------------------------------------------------------
+    HASH_SEEDS = ["0", "1", "2", "3"]
+
+    def rand_tie_rich(self, rng: random.Random) -> Dict[str, Any]:
+        """equal starts across profiles, equal scores, at least one profile with several fragments"""
+        length = rng.choice([10, 20, 30])
+        lens = [length] * len(NAMES) if rng.random() < 0.6 else [rng.choice([10, 20, 30]) for _ in NAMES]
+        profs = rng.sample(range(len(NAMES)), rng.choice([2, 3, 4]))
+        starts = [rng.choice([0, 5, 40]) for _ in range(2)]
+        hits = []
+        for p in profs:
+            for _ in range(rng.choice([1, 1, 2, 3])):
+                start = rng.choice(starts + [starts[0] + lens[p] // 2, starts[0] + lens[p]])
+                ln = rng.choice([lens[p] // 2 + 1, lens[p], lens[p] - 1])
+                hits.append([p, start, start + max(1, ln), rng.choice([1, 1, 2]), rng.choice([20, 20, 30])])
+        return {"kind": "hashseed", "lens": lens, "nb": rng.random() < 0.3, "hits": hits}
+
+    def run_children(self, cases: List[Dict[str, Any]], seeds: List[str]) -> List[List[Any]]:
+        """every case in one interpreter per hash seed; result[k][i] = output of case i under seeds[k]"""
+        with tempfile.NamedTemporaryFile("w", suffix=".jsonl", delete=False) as handle:
+            for case in cases:
+                handle.write(json.dumps(case) + "\n")
+            path = handle.name
+        procs = []
+        try:
+            for seed in seeds:
+                env = dict(os.environ, PYTHONHASHSEED=seed)
+                procs.append(subprocess.Popen([sys.executable, "-m", "harness.props.c13_child", path], cwd=str(VERIF),
+                                              env=env, stdout=subprocess.PIPE, stderr=subprocess.PIPE, text=True))
+            outs = []
+            for proc in procs:
+                out, err = proc.communicate(timeout=600)
+                lines = [json.loads(line) for line in out.splitlines() if line.strip()]
+                if proc.returncode != 0 or len(lines) != len(cases):
+                    from ..framework import Infra
+                    raise Infra(f"hash-seed child failed: {err[-300:]}")
+                outs.append(lines)
+            return outs
+        finally:
+            os.unlink(path)
+
+    def extra_checks(self, rng: random.Random, tier: str, deep: bool) -> List[Failure]:
+        """the real entry points in fresh interpreters with different PYTHONHASHSEED: identical results required"""
+        n = 2500 if deep else 400
+        cases: List[Dict[str, Any]] = [self.rand_tie_rich(rng) for _ in range(n)]
+        for _ in range(n // 4):
+            lens = self.rand_lens(rng)
+            cases.append({"kind": "hashseed", "lens": lens, "nb": rng.random() < 0.5, "hits": self.rand_hits(rng, lens)})
+        for _ in range(n // 4):
+            c = self.rand_tie_rich(rng)
+            cases.append(dict(c, kind="mergedl"))
+        for _ in range(n // 4):
+            c = self.rand_hmmer(rng)
+            if c["hits"]:
+                cases.append(c)
+        seeds = self.HASH_SEEDS + (["4", "5", "6", "7"] if deep else [])
+        outs = self.run_children(cases, seeds)
+        self.extra_evaluations = len(cases) * len(seeds)
+        self.extra_coverage = dict(getattr(self, "extra_coverage", None) or {},
+                                   hash_seed_cases=len(cases), hash_seeds=seeds)
+        failures: List[Failure] = []
+        for i, case in enumerate(cases):
+            results = [o[i] for o in outs]
+            if any(r != results[0] for r in results[1:]):
+                k = next(j for j, r in enumerate(results) if r != results[0])
+                failures.append(Failure("spec", case, {"outs": {seeds[0]: results[0], seeds[k]: results[k]}}, None,
+                                        f"result depends on the hash seed: PYTHONHASHSEED={seeds[0]} gives {results[0]}, "
+                                        f"PYTHONHASHSEED={seeds[k]} gives {results[k]}"))
+                if len(failures) >= 3:
+                    break
+        return failures
+
+    def impl_hashseed(self, case: Dict[str, Any]) -> Dict[str, Any]:
+        seeds = self.HASH_SEEDS + ["4", "5"]
+        outs = self.run_children([case], seeds)
+        return {"outs": {s: o[0] for s, o in zip(seeds, outs)}}
+
+    impl_mergedl = impl_hashseed
 
     # exhaustive family -----------------------------------------------------------------------
     def small_scope(self, rng: random.Random, full: bool) -> Iterator[Dict[str, Any]]:
@@ -684,6 +804,31 @@ class C13(Property):
                     break
         return obs
 
+    def impl_refinerec(self, case: Dict[str, Any]) -> Dict[str, Any]:
+        from antismash.common import hmmscan_refinement as ref
+        lens = self._lens(case)
+
+        def run(raw: List[List[Any]]) -> Any:
+            res = ref.refine_hmmscan_results([_QueryResult([_HSP(f"g{g}", h)]) for g, h in raw], lens,
+                                             neighbour_mode=case["nb"])
+            assert all(res.values())            # a gene without refined hits has no entry
+            return ([[hit_json(r) for r in res.get(f"g{g}", [])] for g in range(case["ngenes"])],
+                    sorted(int(k[1:]) for k in res))
+        genes, keys = run(case["raw"])
+        obs: Dict[str, Any] = {"genes": genes, "keys": keys, "perm_bad": None, "alone_bad": None}
+        prng = random.Random(case.get("pseed", 0))
+        for _ in range(3):
+            o = list(case["raw"])
+            prng.shuffle(o)
+            if run(o) != (genes, keys):
+                obs["perm_bad"] = {"order": o, "out": run(o)}
+                break
+        for g in range(case["ngenes"]):
+            alone = run([r for r in case["raw"] if r[0] == g])[0][g]
+            if alone != genes[g]:
+                obs["alone_bad"] = {"gene": g, "alone": alone}
+        return obs
+
     def impl_runhmmer(self, case: Dict[str, Any]) -> Dict[str, Any]:
         from antismash.common import hmmer
         ngenes = max((r[0] for r in case["raw"]), default=-1) + 1
@@ -736,7 +881,7 @@ class C13(Property):
             hmmer.fasta.get_fasta_from_features = lambda _f: ""
             try:
                 res = hmmer.run_hmmer(record, list(record.m.values()), math.ldexp(case["maxev"], -60),
-                                      case["min"] / 4, "/", "tool")
+                                      case["min"] / 4, "/", "tool", filter_overlapping=case.get("filter", True))
             finally:
                 (hmmer.subprocessing.run_hmmscan, hmmer.pfamdb.get_pfam_id_from_name,
                  hmmer.pfamdb.get_pfam_cutoffs, hmmer.fasta.get_fasta_from_features) = saved
@@ -748,7 +893,7 @@ class C13(Property):
         base = run(case["raw"])
         prng = random.Random(case.get("pseed", 0))
         bad = None
-        for _ in range(4):
+        for _ in range(4 if case.get("filter", True) else 0):    # unfiltered: hmmscan order is kept by design
             o = list(case["raw"])
             prng.shuffle(o)
             got = run(o)
@@ -846,6 +991,15 @@ class C13(Property):
     def driver_line(self, case: Dict[str, Any], obs: Dict[str, Any]) -> Optional[Dict[str, Any]]:
         kind = case["kind"]
         line: Dict[str, Any] = {"kind": kind}
+        if kind == "hashseed":
+            return {"kind": "refine", "lens": case["lens"], "reg": REG, "hits": case["hits"], "nb": case["nb"],
+                    "impl": next(iter(obs.get("outs", {"": []}).values())) or []}
+        if kind == "mergedl":
+            hits = sorted({tuple(h) for h in case["hits"]}, key=lambda h: (h[1], h[2], NAMES[h[0]], h[3], h[4]))
+            return {"kind": "merge", "lens": case["lens"], "reg": REG, "hits": [list(h) for h in hits], "nb": False,
+                    "impl": next(iter(obs.get("outs", {"": []}).values()))}
+        if kind == "hmmer" and "outs" in obs:
+            return {"kind": "hmmer", "cut": case["cut"], "limit": case["limit"], "hits": case["hits"], "impl": None}
         if kind in ("refine", "remov", "incomplete", "merge"):
             line.update({"lens": case["lens"], "reg": REG, "hits": case["hits"]})
             if kind in ("refine", "merge"):
@@ -865,7 +1019,10 @@ class C13(Property):
         elif kind == "cp":
             line.update({"cut": case["cut"], "eq": case["eq"], "genes": self._group(case["raw"], case["ngenes"])})
         elif kind == "runhmmer":
-            line.update({"cut": case["cut"], "min": case["min"], "maxev": case["maxev"], "genes": self._group(case["raw"])})
+            line.update({"cut": case["cut"], "min": case["min"], "maxev": case["maxev"], "genes": self._group(case["raw"]),
+                         "filter": case.get("filter", True)})
+        elif kind == "refinerec":
+            line.update({"lens": case["lens"], "reg": REG, "nb": case["nb"], "raw": case["raw"], "ngenes": case["ngenes"]})
         elif kind == "domains":
             line.update({"lens": case["lens"], "names": DOCK_NAMES, "L": case["L"], "genes": case["genes"]})
         elif kind == "subtypes":
@@ -881,6 +1038,15 @@ class C13(Property):
             return Judgement(False, True, detail=f"driver error {drv['err']}")
         if "err" in obs:
             return Judgement(False, False, tags=(kind,), detail=f"implementation raised {obs['err']}: {obs.get('msg')}")
+        if "outs" in obs:
+            # hash-seed matrix: one result per PYTHONHASHSEED, all must agree (and agree with the model)
+            results = list(obs["outs"].values())
+            same = all(r == results[0] for r in results[1:])
+            corr = kind == "hmmer" or results[0] == drv["model"]
+            detail = "" if same else f"result depends on the hash seed: {obs['outs']}"
+            if same and not corr:
+                detail = f"model {drv['model']} vs implementation {results[0]}"
+            return Judgement(corr, same, nontrivial=True, tags=("hash-seed", kind), detail=detail)
         return getattr(self, "judge_" + kind)(case, obs, drv)
 
     def judge_refine(self, case: Dict[str, Any], obs: Dict[str, Any], drv: Dict[str, Any]) -> Judgement:
@@ -1022,10 +1188,33 @@ class C13(Property):
             if any(h[0] != g or not h[5] > case["cut"][h[2]] for h in hits) \
                     or len(set(h[2] for h in hits)) != len(hits) or [h[3] for h in hits] != sorted(h[3] for h in hits):
                 spec_ok, detail = False, f"gene {g}: returned {hits}"
+        # the documented meaning: competition between equivalent profiles first, then the best of each profile
+        # among the survivors (a profile whose best copy lost but has an uncontested copy stays represented)
+        for g, (got, want, surv) in enumerate(zip(obs["genes"], drv["spec"], drv["survivors"])):
+            if spec_ok and got != want:
+                lost = sorted(set(raw[u][2] for u in surv if raw[u][5] > -10) - set(raw[u][2] for u in got))
+                spec_ok = False
+                detail = (f"gene {g}: returned {got}, documented result {want}"
+                          + (f"; profiles {[NAMES[p] for p in lost]} survive the competition but are not represented"
+                             if lost else ""))
         if not corr and not detail:
             detail = f"model {drv['model']} vs implementation {obs['genes']}"
         return Judgement(corr, spec_ok, nontrivial=bool(drv["nontrivial"]),
                          tags=("cp", "tie" if any(drv["ties"]) else "distinct", "eq%d" % len(case["eq"])), detail=detail)
+
+    def judge_refinerec(self, case: Dict[str, Any], obs: Dict[str, Any], drv: Dict[str, Any]) -> Judgement:
+        corr = obs["genes"] == drv["model"] and obs["keys"] == sorted(drv["keys"])
+        spec_ok, detail = True, ""
+        if obs["perm_bad"] is not None:
+            spec_ok, detail = False, f"order dependence: {obs['genes']} vs {obs['perm_bad']}"
+        elif obs["alone_bad"] is not None:
+            spec_ok, detail = False, f"a gene's hits depend on the other genes: {obs['genes']} vs {obs['alone_bad']}"
+        elif obs["genes"] != drv["alone"]:
+            spec_ok, detail = False, f"not the per-gene refinement {drv['alone']}: {obs['genes']}"
+        if not corr and not detail:
+            detail = f"model {drv['model']} keys {drv['keys']} vs implementation {obs['genes']} keys {obs['keys']}"
+        return Judgement(corr, spec_ok, nontrivial=bool(drv["nontrivial"]),
+                         tags=("refinerec", "nb" if case["nb"] else "dl"), detail=detail)
 
     def judge_runhmmer(self, case: Dict[str, Any], obs: Dict[str, Any], drv: Dict[str, Any]) -> Judgement:
         model = [m.get("ok") for m in drv["model"]]
@@ -1078,7 +1267,7 @@ class C13(Property):
                 for i in range(len(g)):
                     yield dict(case, genes=case["genes"][:gi] + [g[:i] + g[i + 1:]] + case["genes"][gi + 1:])
             return
-        if kind in ("cp", "runhmmer"):
+        if kind in ("cp", "runhmmer", "refinerec"):
             raw = case["raw"]
             for i in range(len(raw)):
                 yield dict(case, raw=raw[:i] + raw[i + 1:])
